@@ -777,7 +777,11 @@ func (r *runner) oneUnser(s string, how string) {
 		return
 	}
 	t := strings.TrimSpace(s)
-	legacy := strings.Contains(t, "__origami_")
+	// a legacy wrapper (refused by the strict reader, `s:` + `__origami_a:` / `__origami_o:` between the first and the
+	// last quote) is the one class of inputs whose answer comes from the JSON reader, which the model does not carry:
+	// the model answers `legacy` there. Every other input that merely CONTAINS the marker is an ordinary input (until
+	// round 7 all of them were skipped, which hid the order of the two readers from both the oracle and the model).
+	legacy := isLegacyWrapper(t)
 	if impl != "false" {
 		c.Hit("unser:accepted")
 		if ref, ok := refUnserialize(s); !ok {
@@ -792,8 +796,13 @@ func (r *runner) oneUnser(s string, how string) {
 		r.viol("unserialize:rejects-wellformed", fmt.Sprintf("unserialize(%q) = false but the input is well-formed", clip(s)), cas)
 	}
 	if legacy {
-		c.Hit("unser:legacy-skipped")
-		return
+		c.Hit("unser:legacy-wrapper")
+		if impl != "false" && res.V != nil {
+			if k := fromData(res.V).K; k != 'A' && k != 'O' && k != 'K' {
+				r.viol("unserialize:legacy-wrapper-kind", fmt.Sprintf("unserialize(%q) = %s: a legacy wrapper yields an array or false", clip(s), clip(impl)), cas)
+			}
+		}
+		impl = "legacy"
 	}
 	r.askCanon("unser\t"+hexs(t), impl, cas, "unserialize vs Model.Ser.unserializeT")
 }
